@@ -12,7 +12,7 @@ R = Rules(
     "C17",
     explanation=(
         "Clauses of resource.Site, resource.WKCResource and Message.get_request_uri decided on the syntax trees of the package.  "
-        "Clauses a, b, d, e, f, g are small-scope model checks: the checker's own evaluator (rules/_kit_c17.Interp, an interpreter for a "
+        "Clauses a, b, d, e, f, g, h, i are small-scope model checks: the checker's own evaluator (rules/_kit_c17.Interp, an interpreter for a "
         "subset of Python over the syntax trees of the analysed program; no repository code is imported or executed) evaluates the "
         "analysed functions on an enumerated family of small concrete configurations and compares the outcome with reference semantics "
         "written down in this module; collaborators (the request's option set, remote and code, registered resources, link descriptions) are "
@@ -49,10 +49,10 @@ R = Rules(
         "value, other attributes on any value, the item is split at its first '=', items without '=' are ignored; (h) a request that begins a fetch (no Block2 option, or Block2 block number 0) is rendered afresh "
         "by Block2Cache.extract_or_insert -- through which every resource.Resource, the listing included, is served -- and answered with (a block of) "
         "that rendering, whatever an earlier block-wise fetch of the same client left in the cache, so that the listing fetched block-wise after "
-        "add_resource/remove_resource shows the change (sequences of requests of one client evaluated with the rendering changing in between).  Not decided: paths "
+        "add_resource/remove_resource shows the change (sequences of requests of one client evaluated with the rendering changing in between); (i) a request whose body arrives in one or several Block1 blocks, entering through Site.render_to_pipe and served by the program's own Resource.render_to_pipe / Block1 assembly / Block2 handling, reaches the handler's render() as a message with the stripped Uri-Path from which get_request_uri yields the original request path (resource registered directly, one and two nested sites deep) -- the invariant kept jointly by the lookup, Message.copy, the block-wise assembly and get_request_uri; (j) shared with C01.e: option values pass the value codecs unchanged, a String option (Uri-Path) is the UTF-8 of exactly its value in both directions without normalisation, so that the lookup keys on the components the client sent.  Not decided: paths "
         "longer than 4 components, behaviour with more than one filter item carrying '=', arbitrary interleavings at run time."
     ),
-    rule_text="small-scope model checking with the checker's own evaluator against reference semantics (a, b, d, e, f, g, h); field ownership over the package with alias-aware writer scan (d); CFG dominance/must-pass and exception-escape analysis of the callers (c)",
+    rule_text="small-scope model checking with the checker's own evaluator against reference semantics (a, b, d, e, f, g, h, i; j with C01's evaluator); field ownership over the package with alias-aware writer scan (d); CFG dominance/must-pass and exception-escape analysis of the callers (c)",
 )
 
 SITE = "resource.Site."
@@ -145,6 +145,7 @@ class World:
         for name, v in values.items():
             o.attrs[name] = v
         o.is_options = True
+        o.methods.update(getattr(self, "option_methods", {}))  # (a clause may extend the reference model of the option set; copies get the same methods)
         return o
 
     def _deepcopy(self, it, a, k):
@@ -1315,6 +1316,22 @@ BT_QN = "aiocoap.optiontypes.BlockOption.BlockwiseTuple"
 TD_QN = "aiocoap.util.asyncio.timeoutdict.TimeoutDict"
 
 
+def block_value(it, a, k):
+    """a Block1/Block2 option value: symbolic (number, more, size exponent) with the program's own BlockwiseTuple properties"""
+    names = ("block_number", "more", "size_exponent")
+    vals = dict(zip(names, a))
+    vals.update(k)
+    if sorted(vals) != sorted(names) or len(a) > 3:
+        it.throw("TypeError", "BlockwiseTuple takes block_number, more, size_exponent")
+    triple = tuple(vals[n_] for n_ in names)
+    o = Obj(cls=BT_QN, label="Block%r" % (triple,), attrs=vals)
+    o.methods["__iter__"] = Builtin("__iter__", lambda it_, a_, k_: Iter(iter(triple), "block option fields"))
+    o.methods["__getitem__"] = Builtin("__getitem__", lambda it_, a_, k_: it_._py(lambda: triple[a_[0]]))
+    o.methods["__len__"] = Builtin("__len__", lambda it_, a_, k_: 3)
+    o.methods["__eq__"] = Builtin("__eq__", lambda it_, a_, k_: (tuple(a_[0].attrs[n_] for n_ in names) if isinstance(a_[0], Obj) and a_[0].cls == BT_QN else a_[0]) == triple)
+    return o
+
+
 @R.clause("C17.h", "a request that begins a fetch of a resource (no Block2 option, or Block2 block number 0) is rendered afresh, whatever an earlier block-wise fetch left in the resource's Block2 cache: "
                    "the listing fetched after add_resource / remove_resource shows the change, also when it is fetched block-wise")
 def h(ctx):
@@ -1333,22 +1350,7 @@ def h(ctx):
     fi = prog.func("blockwise.Block2Cache.extract_or_insert")
     ctx.need(len(params(fi)) == 2, "Block2Cache.extract_or_insert signature changed")
     ctx.need(BT_QN in prog.classes, "optiontypes.BlockOption.BlockwiseTuple missing")
-    holder = {}
-
-    def block(it, a, k):
-        names = ("block_number", "more", "size_exponent")
-        vals = dict(zip(names, a))
-        vals.update(k)
-        if sorted(vals) != sorted(names) or len(a) > 3:
-            it.throw("TypeError", "BlockwiseTuple takes block_number, more, size_exponent")
-        triple = tuple(vals[n_] for n_ in names)
-        o = Obj(cls=BT_QN, label="Block%r" % (triple,), attrs=vals)
-        o.methods["__iter__"] = Builtin("__iter__", lambda it_, a_, k_: Iter(iter(triple), "block option fields"))
-        o.methods["__getitem__"] = Builtin("__getitem__", lambda it_, a_, k_: it_._py(lambda: triple[a_[0]]))
-        o.methods["__len__"] = Builtin("__len__", lambda it_, a_, k_: 3)
-        o.methods["__eq__"] = Builtin("__eq__", lambda it_, a_, k_: (tuple(a_[0].attrs[n_] for n_ in names) if isinstance(a_[0], Obj) and a_[0].cls == BT_QN else a_[0]) == triple)
-        return o
-
+    block = block_value
     world = World(ctx, stubs={TD_QN: Builtin("TimeoutDict", lambda it, a, k: {}), BT_QN: Builtin("BlockwiseTuple", block)})
     it = world.it
     # does the listing resource go through the cache at all?
@@ -1404,6 +1406,151 @@ def h(ctx):
            not decision, fi, fi.node, construct="Block2 cache: a new fetch is rendered afresh", detail=decision[0] if decision else "%d requests evaluated" % n)
     ctx.ob("the answer to a request that begins a fetch is the fresh rendering, or a block of it (registrations and removals made since an earlier block-wise fetch of the listing are visible)",
            not served, fi, fi.node, construct="Block2 cache: a new fetch is served the fresh rendering", detail=served[0] if served else "%d requests evaluated" % n)
+
+
+# ---------------------------------------------------------------------------
+# C17.i
+
+RES_QN = "aiocoap.resource.Resource"
+
+
+@R.clause("C17.i", "the handler can reconstruct the original request URI also when the request's body arrives block-wise: the message a resource below a Site renders after Block1 assembly "
+                   "still has the stripped Uri-Path and still yields the original request path from get_request_uri")
+def i(ctx):
+    """'The handler sees the path with the matched part removed but can still reconstruct the original request URI' is a statement
+    about the message the handler's render() receives, not about the message the Site's lookup returns (C17.e).  Between the two lies
+    the serving chain of every resource.Resource: render_to_pipe -> needs_blockwise_assembly -> Block1 assembly of the request body ->
+    Block2 handling of the response -> render(request).  Each link may hand on the message it received, a copy made by Message.copy,
+    or the stored first block of a transfer -- the necessary condition is the end-to-end one: whatever message reaches render() has
+    the stripped Uri-Path and get_request_uri on it yields the path of the original request.  It is kept jointly by the Site's lookup
+    (where the original path is stored), Message.copy (what a copy carries over), the block-wise assembly (which message it keeps and
+    returns) and get_request_uri (what it reads), and is decided end to end by evaluating the program's own Site.render_to_pipe,
+    Resource.render_to_pipe, Block1 assembly, Block2 handling, Message.copy and get_request_uri on requests whose body comes in one
+    Block1 block and in two Block1 blocks, for a resource registered directly, in a nested site and two sites deep -- and, as the
+    reference case, on the same request without a Block1 option.  Stand-ins: the assembly's/cache's container is a dict (an entry
+    within its lifetime; TimeoutDict itself is C06's), a block option value is a symbolic (number, more, size exponent) value with
+    the program's own BlockwiseTuple properties, the symbolic option set lists no options (all requests of a sequence belong to the
+    same operation: the block key is C06's business), render() is the application's handler (it records the message it is given).
+    Which blocks are acknowledged with 2.31, 4.08 for gaps and the payload arithmetic are not C17's business (C06)."""
+    prog = ctx.prog
+    rfi = prog.func(SITE + "render_to_pipe")
+    if RES_QN not in prog.classes or BT_QN not in prog.classes:
+        raise AnalysisError("C17.i: resource.Resource / optiontypes.BlockOption.BlockwiseTuple missing")
+    if registration_refuted(ctx, "block-wise requests below a Site") or lookup_refuted(ctx, "block-wise requests below a Site"):
+        return
+    world = World(ctx, stubs=dict(URI_STUBS, **{TD_QN: Builtin("TimeoutDict", lambda it, a, k: {}), BT_QN: Builtin("BlockwiseTuple", block_value)}))
+    world.option_methods = {"option_list": Builtin("option_list", lambda it_, a, k: [])}
+    it = world.it
+    probe = it.instantiate(ClassVal(RES_QN), [], {})
+    out = it.run(it.getattr_(probe, "needs_blockwise_assembly"), [world.request(("p",))])
+    if out != ("return", True):
+        ctx.note("C17.i not evaluated: resource.Resource.needs_blockwise_assembly %s -- request bodies are not assembled on behalf of the resource" % show_outcome(out))
+        return
+    lost, n = [], 0
+    plain_ok = True
+    for depth, full in ((0, ("a", "b")), (1, ("s", "a", "b")), (2, ("s", "t", "a")), (1, ("s", ""))):
+        for blocks in ((), ((0, False, 0),), ((0, True, 0), (1, False, 0)), ((0, True, 0), (1, True, 0), (2, False, 0))):
+            seen = []
+            leaf = it.instantiate(ClassVal(RES_QN), [], {})
+            leaf.label = "resource registered at %r" % (full,)
+            answer = world.request((), label="response", response=True, more_options={"block2": None, "block1": None})
+            answer.attrs["payload"] = b"ok"
+            answer.attrs["remote"] = None
+
+            def render(it_, a, k, _seen=seen, _answer=answer):
+                _seen.append(a[0] if a else None)
+                return Awaitable(lambda: _answer)
+
+            leaf.methods["render"] = Builtin("render", render)
+            inner_path = full[depth:]
+            key = () if inner_path == ("",) else inner_path
+            holder = None
+            for level in range(depth, 0, -1):
+                s_ = world.new_site("nested site %d" % level)
+                if holder is None:
+                    world.build_into(s_, Model(), [(key, leaf)])
+                else:
+                    world.build_into(s_, Model(), [(full[level:level + 1], holder)])
+                holder = s_
+            if depth == 0:
+                site = world.build({full: leaf}, {})
+            elif depth == 1:
+                site = world.build({}, {full[:1]: holder})
+            else:
+                site = world.build({}, {full[:1]: holder})
+            remote = Obj(label="remote", open_=True, attrs={"maximum_payload_size": 1024, "maximum_block_size_exp": 6, "blockwise_key": ("the client",),
+                                                             "scheme": "coap", "hostinfo": HOST, "hostinfo_local": HOST, "is_multicast": False, "is_multicast_locally": False})
+            code = world.request(()).attrs["code"]
+            how = "without a Block1 option" if not blocks else "with its body in %d Block1 block(s)" % len(blocks)
+            where = "request for %r %s, resource %s" % (full, how, "registered directly" if depth == 0 else "%d nested site(s) deep" % depth)
+            problem = None
+            for step, b1 in enumerate(blocks or (None,)):
+                req = world.request(full, label="request %d" % (step + 1), more_options={"block1": block_value(it, list(b1), {}) if b1 is not None else None, "block2": None})
+                req.attrs["remote"] = remote
+                req.attrs["code"] = code
+                req.attrs["payload"] = b"x" * 16
+                responses = []
+                pipe = Obj(label="pipe", open_=True, attrs={"request": req})
+                pipe.methods["add_response"] = Builtin("add_response", lambda it_, a, k, _r=responses: _r.append(a[0] if a else None))
+                out = it.run(world.method(site, "render_to_pipe"), [pipe])
+                last = b1 is None or not b1[1]
+                if not last:
+                    if seen:
+                        problem = "the handler is called before the body is complete (block %d)" % step
+                        break
+                    continue
+                if out[0] != "return" or len(seen) != 1:
+                    problem = "render_to_pipe %s; the handler was called %d time(s)" % (show_outcome(out), len(seen))
+            n += 1
+            if problem is None:
+                msg = seen[0]
+                mopt = msg.attrs.get("opt") if isinstance(msg, Obj) else None
+                if not isinstance(mopt, Obj):
+                    problem = "the handler receives %r" % (msg,)
+                elif mopt.attrs.get("uri_path") != ():
+                    problem = "the handler sees Uri-Path %r instead of the stripped path ()" % (mopt.attrs.get("uri_path"),)
+                else:
+                    got, diag = reconstructed_path(world, msg)
+                    if got != uri_path_of(full):
+                        problem = "the message the handler receives reports %s instead of the path %s" % (diag, uri_path_of(full))
+            if problem is not None:
+                if not blocks:
+                    plain_ok = False
+                lost.append("%s: %s" % (where, problem))
+    if not plain_ok:
+        # the reference case (no Block1 option) does not evaluate as expected: the serving chain is not what this clause models; C17.c/C17.e decide the rest
+        raise AnalysisError("C17.i: a request without Block1 option is not served through Site.render_to_pipe -> Resource.render in the evaluator: %s" % lost[0])
+    ctx.ob("a request whose body is transferred with Block1 reaches the handler of the resource found by the Site (directly or through nested sites) as a message with the stripped "
+           "Uri-Path from which get_request_uri still yields the original request path: what the block-wise assembly keeps and returns (the message fed in, or a copy made by "
+           "Message.copy) carries the original path the Site stored", not lost, rfi, rfi.node, construct="Block1 assembly: original request path",
+           detail=lost[0] if lost else "%d request sequences evaluated" % n)
+
+
+# ---------------------------------------------------------------------------
+# C17.j
+
+
+@R.clause("C17.j", "the path the lookup keys on is the path the client sent: option values pass the option codecs unchanged -- a String option (Uri-Path) is the UTF-8 of exactly its value "
+                   "in both directions, nothing is normalised, folded or re-encoded on the way in or out (shared with C01.e)")
+def j_shared(ctx):
+    """'The request is rendered by the resource registered at exactly that path' and 'the listing names the registered resources with
+    their full paths' compare two sequences of strings: the components the application registered (the table keys, as given to
+    add_resource) and the components of the request's Uri-Path options, which come out of the option value codec
+    (optiontypes.StringOption: the value set by the application or decoded from the wire, read back through `.value`).  The tables
+    are keyed by string equality (C17.a/b/d), so routing is exact only if the codec is exact: the value read back is the value
+    set, the value decoded from the bytes b is b.decode('utf-8') and the bytes sent for a value s are s.encode('utf-8') -- for
+    every string, in particular for strings that are not in a Unicode normalisation form, not lower case, contain '/', '%' or
+    characters outside the BMP.  Any mapping applied there (NFC 'to resolve the net-unicode FIXME', case folding, percent
+    decoding) makes a resource registered under a component outside the mapping's range unreachable (4.04) and the links the
+    listing advertises for it unroutable, while Site and the tables stay textually untouched.  An independently written breaking
+    change did exactly that through a `value` property on StringOption.  The condition is C01.e's ('String options are the UTF-8 of
+    the value in both directions', decided there by evaluating the program's own option classes -- constructor, value attribute or
+    property, encode, decode -- on a family of strings including decomposed, compatibility and astral characters against the
+    reference codec); it is run here under this property's id rather than restated: one statement of the invariant, so that a
+    maintainer's edit of the option types is judged the same way by C01 and C17.  (The other value formats C01.e decides -- uint,
+    opaque, block -- carry the Block1/Block2/Uri-Path-Abbrev values C17.e/h/i evaluate symbolically.)"""
+    from . import c01
+    c01.e(ctx)
 
 
 # ---------------------------------------------------------------------------
@@ -1497,3 +1644,19 @@ R.seed("C17.h", F_B, "        if req.opt.block2 is None or req.opt.block2.block_
        "every request is served the stored rendering while the entry lives: the listing does not show later registrations")
 R.seed("C17.h", F_B, "            self._completes[block_key] = assembled\n", "            assembled = self._completes.setdefault(block_key, assembled) if hasattr(self._completes, \"setdefault\") else assembled\n            self._completes[block_key] = assembled\n",
        "the fresh rendering is replaced by the stored one before it is served")
+
+# C17.i
+F_I = "aiocoap/interfaces.py"
+R.seed("C17.i", F_B, "            self._assemblies[block_key] = req\n", "            self._assemblies[block_key] = req.copy(payload=req.payload)\n", "the assembly is started from a copy of the first block: Message.copy does not carry the original request path the Site stored")
+R.seed("C17.i", F_I, "            req = self._block1.feed_and_take(req)\n", "            req = self._block1.feed_and_take(req).copy()\n", "the assembled request is copied before it is rendered: the handler cannot reconstruct the request URI of a block-wise request")
+R.seed("C17.i", F_I, "lambda: self.render(req))", "lambda: self.render(req.copy(uri_path=pipe.request.opt.uri_path)))", "the handler is given a fresh copy of the assembled request: the original request path is lost on the block-wise serving chain only")
+
+# C17.j
+F_T = "aiocoap/optiontypes.py"
+R.seed("C17.j", F_T, "        self.value = rawdata.decode(\"utf-8\")\n", "        import unicodedata\n\n        self.value = unicodedata.normalize(\"NFC\", rawdata.decode(\"utf-8\"))\n",
+       "path components from the wire are NFC-normalised: a resource registered under a decomposed name is answered 4.04")
+R.seed("C17.j", F_T, "    def __init__(self, number, value=\"\"):\n        self.value = value\n        self.number = number\n\n    def encode(self):\n",
+       "    def __init__(self, number, value=\"\"):\n        self.value = value.lower()\n        self.number = number\n\n    def encode(self):\n",
+       "string option values set by the application are case-folded: /Sensors and /sensors become one path")
+R.seed("C17.j", F_T, "        rawdata = self.value.encode(\"utf-8\")\n", "        rawdata = self.value.replace(\"%20\", \" \").encode(\"utf-8\")\n",
+       "percent escapes in string option values are decoded on the way out: the path component 'c%20' advertised in the listing is requested as 'c '")
